@@ -1024,9 +1024,11 @@ class LuaASTEchoWriter(BaseLuaWriter):
                      not self._args.get('ignore_tokens'))
         if in_parens:
             yield self._get_text(node, b'(')
+            self._indent += 1
         for t in self._walk(prefix):
             yield t
         if in_parens:
+            self._indent -= 1
             yield self._get_text(node, b')')
 
     def _walk_VarIndex(self, node):
